@@ -590,7 +590,7 @@ def truncate_read_to_polya(read_exons, polya_pos, polyt_pos):
     if polya_pos != -1:
         end_position = polya_pos
         while end_index >= 0:
-            if read_exons[end_index][0] < polya_pos:
+            if read_exons[end_index][0] <= polya_pos:
                 break
             end_index -= 1
 
@@ -599,7 +599,7 @@ def truncate_read_to_polya(read_exons, polya_pos, polyt_pos):
     if polyt_pos != -1:
         start_position = polyt_pos
         while start_index <= end_index:
-            if read_exons[start_index][1] > polyt_pos:
+            if read_exons[start_index][1] >= polyt_pos:
                 break
             start_index += 1
 
